@@ -11,8 +11,9 @@
 //   * HashMap / HashSet / hash_map::Entry: the dependency shims (CAP 4).
 // (The real MessageCache could not be retargeted: it hands HashSet<PeerId> values to
 // behaviour.rs.)  BOUNDED scenario check, not an inductive contract: history_length = 2,
-// history_gossip = 1, two messages with symbolic topics out of 2 and symbolic `validated`
-// flags, an optional validate() of message 0, followed through three shifts.
+// history_gossip = 1, one message with a symbolic topic out of 2 and a symbolic `validated`
+// flag (optionally validated after the put), followed through one resp. two shifts.
+// (Measured: the longer two-message scenario of the draft timed out at 900 s.)
 include!(concat!(env!("LIBP2P_VERIF"), "/shims/tracing_off.rs"));
 
 #[allow(unused_imports)]
@@ -54,20 +55,18 @@ fn offered(v: &Vec<MessageId>, m: &MessageId) -> bool {
     f
 }
 
+/// gossip window: only validated messages of the asked topic, only for history_gossip heartbeats
 tracing_off! {
 #[kani::proof]
 #[kani::unwind(6)]
-fn mcache_windows_and_iwant_counts() {
-    let (t0, t1) = (any_topic(), any_topic());
+fn mcache_gossip_window() {
+    let t0 = any_topic();
     let probe = any_topic();
-    let (peer, peer2) = (PeerId(7), PeerId(8));
-    let (v0, v1): (bool, bool) = (kani::any(), kani::any());
-    let (m0, m1) = (MessageId(0), MessageId(1));
+    let v0: bool = kani::any();
+    let m0 = MessageId(0);
     let mut c = MessageCache::new(1, 2);
-    // heartbeat 0: message 0 arrives
     assert!(c.put(&m0, raw(&t0, v0)));
     assert!(!c.put(&m0, raw(&t0, v0)), "a duplicate put was accepted");
-    // the application may validate it now
     let validate_now: bool = kani::any();
     if validate_now {
         let r = c.validate(&m0);
@@ -76,41 +75,46 @@ fn mcache_windows_and_iwant_counts() {
     }
     let val0 = v0 || validate_now;
     let g = c.get_gossip_message_ids(&probe);
-    // only validated messages of the asked topic are offered for gossip
     assert!(offered(&g, &m0) == (val0 && probe == t0), "gossip offer differs from: validated and of the asked topic");
     assert!(g.len() == (val0 && probe == t0) as usize);
     std::mem::forget(g);
-    // IWANT: only validated; counted per (message, peer) exactly
+    // one heartbeat later the message has left the gossip window (history_gossip = 1)
+    c.shift();
+    let g = c.get_gossip_message_ids(&probe);
+    assert!(g.is_empty(), "a message older than history_gossip heartbeats was offered for gossip");
+    std::mem::forget(g);
+    std::mem::forget((c, m0));
+}
+}
+
+/// IWANT window and counts: served only if validated, only for history_length heartbeats, counted exactly
+tracing_off! {
+#[kani::proof]
+#[kani::unwind(6)]
+fn mcache_iwant_window_and_counts() {
+    let t0 = any_topic();
+    let (peer, peer2) = (PeerId(7), PeerId(8));
+    let v0: bool = kani::any();
+    let m0 = MessageId(0);
+    let mut c = MessageCache::new(1, 2);
+    assert!(c.put(&m0, raw(&t0, v0)));
     let r1 = c.get_with_iwant_counts(&m0, &peer).map(|(_, n)| n);
     let r2 = c.get_with_iwant_counts(&m0, &peer).map(|(_, n)| n);
     let r3 = c.get_with_iwant_counts(&m0, &peer2).map(|(_, n)| n);
-    if val0 {
+    if v0 {
         assert!(r1 == Some(1) && r2 == Some(2) && r3 == Some(1), "IWANT counts are not exact per (message, peer)");
     } else {
         assert!(r1.is_none() && r2.is_none() && r3.is_none(), "an unvalidated message was served for IWANT");
     }
-    // heartbeat 1: message 0 leaves the gossip window (history_gossip = 1) but is still
-    // within history_length = 2; message 1 arrives
+    // heartbeat 1: still within history_length = 2
     c.shift();
-    assert!(c.put(&m1, raw(&t1, v1)));
-    let g = c.get_gossip_message_ids(&probe);
-    assert!(!offered(&g, &m0), "a message older than history_gossip heartbeats was offered for gossip");
-    assert!(offered(&g, &m1) == (v1 && probe == t1));
-    std::mem::forget(g);
     let r4 = c.get_with_iwant_counts(&m0, &peer).map(|(_, n)| n);
-    assert!(r4 == if val0 { Some(3) } else { None });
-    // heartbeat 2: message 0 is older than history_length heartbeats: gone, with its counts
+    assert!(r4 == if v0 { Some(3) } else { None });
+    // heartbeat 2: older than history_length heartbeats: gone, with its counts
     c.shift();
     assert!(c.get_with_iwant_counts(&m0, &peer).is_none(), "a message older than history_length heartbeats was served for IWANT");
     assert!(!c.msgs.contains_key(&m0) && !c.iwant_counts.contains_key(&m0));
-    assert!(c.get_gossip_message_ids(&probe).is_empty());
-    let r5 = c.get_with_iwant_counts(&m1, &peer).map(|(_, n)| n);
-    assert!(r5 == if v1 { Some(1) } else { None });
-    // heartbeat 3: everything gone
-    c.shift();
-    assert!(c.get_with_iwant_counts(&m1, &peer).is_none());
-    assert!(c.msgs.is_empty() && c.iwant_counts.is_empty());
-    std::mem::forget((c, m0, m1));
+    std::mem::forget((c, m0));
 }
 }
 
